@@ -109,6 +109,11 @@ def _check_one(ctx, flav, fobj, m, vals, other=None):
             # classes come and go (and their memory addresses are reused)
             other_flav = {"vanilla": "nv", "nv": "vanilla", "reids": "nv"}[flav]
             parse_text_subroutine("set R0 1", flavour=codec.fresh_flavour(other_flav))
+            try:
+                # (the same mnemonic, where the other flavour has one of that name - its own class)
+                parse_text_subroutine(text, flavour=codec.fresh_flavour(other_flav))
+            except Exception:
+                pass
             parsed = parse_text_subroutine(text, flavour=codec.fresh_flavour(flav)).instructions
         else:
             parsed = parse_text_subroutine(text, flavour=fobj).instructions
@@ -122,7 +127,8 @@ def _check_one(ctx, flav, fobj, m, vals, other=None):
     if other is not None:
         # a consumer edits the parsed instruction in place (the NV transpiler re-points registers and branch targets of what
         # it was handed); the same text parsed again must still give the instruction the text denotes
-        codec.edit_in_place(p, codec.mk_instr(fobj, flav, m, other))
+        _EDITS[0] += 1
+        codec.edit_in_place(p, codec.mk_instr(fobj, flav, m, other), nested=_EDITS[0] % 2 == 1)
         ctx.count("parse_after_consumer_edit_checks")
         try:
             again = parse_text_subroutine(text, flavour=fobj).instructions
@@ -339,7 +345,8 @@ def run_case(ctx, case):
     # the NV transpiler (or any consumer) edits the instructions of a parsed subroutine in place; parsing the same source
     # again afterwards must give the program the source denotes
     for ins_, (m, _) in zip(sub.instructions, case["instrs"]):
-        codec.edit_in_place(ins_, codec.mk_instr(fobj, flav, m, codec.rand_values(ctx.rng, isa.TABLE[flav][m][1])))
+        _EDITS[0] += 1
+        codec.edit_in_place(ins_, codec.mk_instr(fobj, flav, m, codec.rand_values(ctx.rng, isa.TABLE[flav][m][1])), nested=_EDITS[0] % 2 == 1)
     ctx.count("parse_after_consumer_edit_checks")
     try:
         sub2 = parse_text_subroutine(PRE + text1, flavour=fobj)
